@@ -36,6 +36,11 @@ impl Arch {
         PMTiles::from_bytes(bytes).map(Arch::S)
     }
 
+    /// range-filtered open keeping ids <= `last`
+    pub fn open_sync_partially(bytes: Vec<u8>, last: u64) -> std::io::Result<Self> {
+        PMTiles::from_bytes_partially(bytes, ..=last).map(Arch::S)
+    }
+
     pub fn open_async(bytes: Vec<u8>) -> std::io::Result<Self> {
         block_on(PMTiles::from_async_reader(futures::io::Cursor::new(bytes))).map(Arch::A)
     }
